@@ -15,7 +15,7 @@ RULE = ("E1: Note - Sign and Open at line level (split at the last blank line, o
 def run(ctx):
     ctx.build_harness()
     q = ctx.quick()
-    gen_and_replay(ctx, "note", "NoteGen", "NoteGen_2" if q else "NoteGen_3", floor=80000, workers=16, timeout=3400, heap="16g")
+    gen_and_replay(ctx, "note", "NoteGen", "NoteGen_2" if q else "NoteGen_3", floor=80000, workers=16, timeout=3400, heap="16g", xss="512m")
     record_and_validate(ctx, "note", "NoteTrace", "NoteTrace", 6000 if q else 200000, shards=12)
     ctx.assumptions += ["signatures are facts (Ed25519 unforgeability); base64 and UTF-8 decoding trusted",
                         "key-string parsing (NewVerifier/NewSigner/GenerateKey) is outside this property: verifiers are built from raw keys"]
